@@ -18,20 +18,106 @@ LEVEL = "translation_validation"
 RULE = (
     "Hypothesis composes 2-5 folding scenarios per script: sleep / Led pin / blink(duration,times) / fade(step,delay) / "
     "set_brightness / range bound / analog_write value given as folded literal arithmetic (incl. floats, bools, abs/min/max/"
-    "int/len of literals) and as variables assigned just before, far before, in both branches of a tape-controlled if, before "
+    "int/len of literals, and recursive constant trees with + - * // %, conditional expressions, 2-4 operand comparison chains with mixed operators, and/or/not) and as variables assigned just before, far before, in both branches of a tape-controlled if, before "
     "a loop that re-assigns them, or through a helper; len() of str/list names; flash_pattern and glyph bitmaps by name; "
     "Ultrasonic model by name. Each script is rendered as P (literal) and P' (variable/helper) and both are run for N passes. "
     "Oracle: both agree with CPython and with each other. Non-trivial = a scenario where the operand's value at the program "
     "point differs from its first (transpile-time) value on an executed path, or a mutation located in a branch/loop. "
-    "distinct = distinct script pair + tape."
+    "distinct = distinct script pair + tape. Fold shards: thousands of recursive constant trees E placed in sleep / analog_write / blink / assigned-then-used positions; whenever "
+    "the emitted argument is a number, the sketch must be byte-identical to the sketch for the literal value Python gives E (non-trivial = E contains a condition, comparison, // or %)."
 )
 ASSUMPTIONS = ["same trusted base as C01", "open staleness classes (len of a later-mutated name, flash_pattern after a conditional re-assignment, device pin given by a later re-assigned name) are excluded by construction; their witnesses run"]
 
 HEAD = ("from Reduino.Actuators import Led\nfrom Reduino.Communication import SerialMonitor\nfrom Reduino.Core import analog_read, analog_write\n"
         "from Reduino.Displays import LCD\nfrom Reduino.Sensors import Ultrasonic\nfrom Reduino.Utils import sleep\nmon = SerialMonitor(9600)\n")
 
+# ---- recursive constant expressions (every leaf a literal), built bottom-up with their Python value
+def _cnum(draw, depth):
+    """(text, value): a non-negative int or quarter-valued float constant expression."""
+    if depth <= 0 or draw(st.integers(0, 3)) == 0:
+        if draw(st.integers(0, 4)) == 0:
+            v = draw(st.integers(0, 80)) / 4.0
+            return repr(v), v
+        v = draw(st.integers(0, 20))
+        return str(v), v
+    k = draw(st.sampled_from(["add", "sub", "mul", "floordiv", "mod", "tern", "tern", "abs", "min", "max", "int", "boolnum", "len", "paren"]))
+    a, av = _cnum(draw, depth - 1)
+    if k in ("abs", "int", "paren", "len"):
+        if k == "abs":
+            return f"abs(0 - {a})" if draw(st.booleans()) else f"abs({a})", av
+        if k == "int":
+            return f"int({a})", int(av)
+        if k == "len":
+            n = draw(st.integers(0, 6))
+            return f"len({'x' * n!r})", n
+        return f"({a})", av
+    if k == "boolnum":
+        c, cv = _cbool(draw, depth - 1)
+        return f"({c} + {a})", cv + av
+    b, bv = _cnum(draw, depth - 1)
+    if k == "add":
+        return f"({a} + {b})", av + bv
+    if k == "sub":
+        return (f"({a} - {b})", av - bv) if av >= bv else (f"({b} - {a})", bv - av)
+    if k == "mul":
+        return (f"({a} * {b})", av * bv) if av * bv <= 200 else (f"({a} + {b})", av + bv)
+    if k in ("floordiv", "mod"):
+        if isinstance(av, float) or isinstance(bv, float) or bv == 0:
+            return f"({a} + {b})", av + bv
+        return (f"({a} // {b})", av // bv) if k == "floordiv" else (f"({a} % {b})", av % bv)
+    if k in ("min", "max"):
+        if isinstance(av, float) != isinstance(bv, float):
+            return f"({a} + {b})", av + bv
+        return f"{k}({a}, {b})", (min if k == "min" else max)(av, bv)
+    c, cv = _cbool(draw, depth - 1)
+    return f"({a} if {c} else {b})", (av if cv else bv)
+
+
+def _cbool(draw, depth):
+    """(text, value): comparison chains (2-4 operands, mixed operators), and / or / not over them."""
+    k = draw(st.sampled_from(["cmp", "chain", "chain", "and", "or", "not"])) if depth > 0 else "cmp"
+    ops = {"<": lambda x, y: x < y, "<=": lambda x, y: x <= y, ">": lambda x, y: x > y, ">=": lambda x, y: x >= y, "==": lambda x, y: x == y, "!=": lambda x, y: x != y}
+    if k in ("cmp", "chain"):
+        n = 2 if k == "cmp" else draw(st.integers(3, 4))
+        # small operand alphabet: chains whose pairwise truth differs from "compare everything with the first operand" are frequent
+        terms = [(str(v), v) for v in (draw(st.integers(0, 5)) for _ in range(n))] if draw(st.booleans()) else [_cnum(draw, 0) for _ in range(n)]
+        syms = [draw(st.sampled_from(sorted(ops))) for _ in range(n - 1)]
+        text = terms[0][0]
+        val = True
+        for i, sy in enumerate(syms):
+            text += f" {sy} {terms[i + 1][0]}"
+            val = val and ops[sy](terms[i][1], terms[i + 1][1])
+        return f"({text})", val
+    a, av = _cbool(draw, depth - 1)
+    if k == "not":
+        return f"(not {a})", (not av)
+    b, bv = _cbool(draw, depth - 1)
+    return (f"({a} and {b})", av and bv) if k == "and" else (f"({a} or {b})", av or bv)
+
+
+def const_tree(draw, lo=0, hi=40):
+    if draw(st.booleans()):
+        # a decision at the top: the two arms differ, so a mis-folded condition changes the value
+        c, cv = _cbool(draw, draw(st.integers(1, 2)))
+        a, av = _cnum(draw, draw(st.integers(0, 1)))
+        b, bv = _cnum(draw, draw(st.integers(0, 1)))
+        if av == bv:
+            b, bv = f"({b} + 1)", bv + 1
+        text, val = f"({a} if {c} else {b})", (av if cv else bv)
+    else:
+        text, val = _cnum(draw, draw(st.integers(1, 3)))
+    if val > hi:
+        text, val = f"min({text}, {hi if isinstance(val, int) else float(hi)!r})", (hi if isinstance(val, int) else float(hi))
+    if val < lo:
+        text, val = f"max({text}, {lo if isinstance(val, int) else float(lo)!r})", (lo if isinstance(val, int) else float(lo))
+    assert eval(text, {"__builtins__": {}}, {"abs": abs, "min": min, "max": max, "int": int, "len": len}) == val, text
+    return text, val
+
+
 # folded literal expressions with their Python value
 def const_exprs(draw, lo=0, hi=40):
+    if draw(st.booleans()):
+        return const_tree(draw, lo, hi)
     a = draw(st.integers(lo, hi)); b = draw(st.integers(1, 9))
     forms = [
         (f"{a}", a), (f"({a} + {b})", a + b), (f"({a} * {b})", a * b), (f"({a + b} - {b})", a), (f"({a} // {b})", a // b), (f"({a} % {b})", a % b),
@@ -327,10 +413,60 @@ def evaluate_pair(case):
 
 def plan(tier):
     n = 25 if tier == "quick" else 600
-    return [(f"gen-{i}", {"n": n}) for i in range(16)]
+    return [(f"gen-{i}", {"n": n}) for i in range(16)] + [(f"fold-{i}", {"n": 600 if tier == "quick" else 20000}) for i in range(4)]
+
+
+# ---- fold shards: a constant tree in a foldable position must be folded to the value Python gives it
+FOLD_SITES = [("sleep({})", r"delay\(([^;]*)\);"), ("analog_write(5, {})", r"analogWrite\(5, ([^;]*)\);"), ("led.blink({}, 1)", r"delay\(([^;]*)\);"),
+              ("x = {}\nsleep(x)", r"delay\(([^;]*)\);")]
+FOLD_HEAD = "from Reduino.Actuators import Led\nfrom Reduino.Core import analog_write\nfrom Reduino.Utils import sleep\nled = Led(9)\n"
+_NUM = __import__("re").compile(r"^\(?-?\d+(\.\d+)?(e-?\d+)?f?\)?$")
+
+
+def eval_fold(case):
+    """the sketch for `site(E)` must be the sketch for `site(literal value of E)` whenever E was folded to a number at all"""
+    import re
+
+    site, pat = FOLD_SITES[case["site"]]
+    try:
+        a = fb.transpile(FOLD_HEAD + site.format(case["expr"]) + "\n")
+        b = fb.transpile(FOLD_HEAD + site.format(repr(case["value"])) + "\n")
+    except ValueError:
+        return "rejected", None
+    ma = re.search(pat, a)
+    if not ma or not _NUM.match(ma.group(1).strip()):
+        return "not-folded", None
+    if a != b:
+        mb = re.search(pat, b)
+        return "FAIL", {"bucket": "folded-to-another-value", "case": dict(case, kind="fold"), "expected": f"{case['expr']} == {case['value']!r}: argument {mb.group(1) if mb else '?'}",
+                        "observed": f"argument {ma.group(1)}"}
+    return "ok", None
+
+
+def run_fold(name, seed, tier, n):
+    r = Result()
+    last = {}
+
+    @hseed(seed)
+    @hyp_settings(n, phases=(Phase.generate,))
+    @given(st.data())
+    def prop(data):
+        text, val = const_tree(data.draw, 0, 200)
+        case = {"expr": text, "value": val, "site": data.draw(st.integers(0, len(FOLD_SITES) - 1))}
+        status, fl = eval_fold(case)
+        r.count("fold:" + status)
+        r.case(case if len(r.samples) < 1 else {"e": text}, status == "ok" and (" if " in text or "<" in text or ">" in text or "//" in text or "%" in text))
+        if fl and (fl["bucket"] not in last or len(text) < len(last[fl["bucket"]]["case"]["expr"])):
+            last[fl["bucket"]] = fl
+
+    prop()
+    r.failures = list(last.values())
+    return r
 
 
 def run_shard(name, seed, tier, n):
+    if name.startswith("fold"):
+        return run_fold(name, seed, tier, n)
     r = Result()
     found = {}
 
@@ -357,6 +493,9 @@ def run_shard(name, seed, tier, n):
 
 
 def replay(case):
+    if case.get("kind") == "fold":
+        status, fl = eval_fold(case)
+        return [fl] if fl else []
     status, bucket, detail = evaluate_pair(case)
     if status == "FAIL":
         return [{"bucket": bucket, "case": case, "expected": "P and P' agree with CPython and with each other", "observed": str(detail)}]
